@@ -222,6 +222,7 @@ type reqResult struct {
 	cap      *capture
 	t0, t1   time.Time
 	panicked string
+	bodyErr  string // the 200 body is not the JSON document the protocol promises
 }
 
 func bufSize(b int) int {
@@ -272,11 +273,17 @@ func runRequest(c reqCase) (res reqResult) {
 		}
 		if err := json.Unmarshal(rec.Body.Bytes(), &r); err != nil || r.Errors {
 			res.items = -1
+			tail := rec.Body.String()
+			if len(tail) > 60 {
+				tail = "..." + tail[len(tail)-60:]
+			}
+			res.bodyErr = fmt.Sprintf("response body is not valid JSON with errors=false (%v): %s", err, tail)
 		} else {
 			res.items = len(r.Items)
 			for _, it := range r.Items {
 				if string(it) != `{"create":{"status":201}}` {
 					res.items = -1
+					res.bodyErr = "an item of the response is not {\"create\":{\"status\":201}}: " + string(it)
 				}
 			}
 		}
@@ -1078,7 +1085,10 @@ func checkProperty(g genBody, c reqCase, res reqResult, orc *vh.Oracle, rep *vh.
 		viol("rejected-although-valid", fmt.Sprintf("a valid request was answered %d", res.status))
 		return
 	}
-	if res.items != len(stored) {
+	if res.bodyErr != "" {
+		violate(rep, vh.Violation{Site: "proxyapi/http_bulk.go:writeBulkResponse", Class: "response-not-listing-items",
+			What: fmt.Sprintf("%d documents stored; %s", len(stored), res.bodyErr), Replay: []string{c.line()}})
+	} else if res.items != len(stored) {
 		viol("wrong-item-count", fmt.Sprintf("response lists %d created items, %d documents should be stored", res.items, len(stored)))
 	}
 	if len(stored) == 0 {
@@ -1194,6 +1204,7 @@ func main() {
 	chFrame := vh.NewChannel("bulk.frame", "esBulkDocReader.ReadDoc until end/error vs SV.Bulk.readAll: documents yielded and kind of ending; exhaustive document-line lengths in [B-3,B+3] x terminators x position, plus grammar bodies with mutations, random chunking of the stream; non-trivial = at least one document yielded")
 	chProc := vh.NewChannel("bulk.proc", "POST /_bulk through the real BulkHandler and bulk.Ingestor into a capturing StorageClient vs SV.Bulk.processDocuments: status class, created items, number of store calls, decompressed docs payload; JSON verdicts of insane-json passed to the model as oracle; non-trivial = the reader yields at least one document")
 	chIngest := vh.NewChannel("bulk.ingest", "Ingestor.ProcessDocuments fed by the real esBulkDocReader.ReadDoc with a chosen request time vs SV.Bulk.processDocuments with metaFor: items, payload, and per stored document MID and Size of its meta (document times around the request time, beyond the drifts and beyond int64); non-trivial = at least one document stored")
+	chResp := vh.NewChannel("bulk.resp", "writeBulkResponse(took, total) vs SV.Bulk.bulkResponse: the whole body, for every total in 0..300, around 384/512/1024 (2048/4096 in the thorough tier) and random totals up to 1500; non-trivial = at least two items")
 	chIndex := vh.NewChannel("bulk.index", "all metas (MID, Size, tokens; parent and nested) stored by the real Ingestor for one document under a mapping with keyword/text/path/exists, multi-type, object, tags and nested fields vs SV.Bulk.metasFor = time rule + SV.BulkIndex.indexDoc (per field: C11's SV.Tok.indexField) on the tree insane-json presents; random case sensitivity, partial indexing and token limits; non-trivial = the parent meta has more than the _all_ token")
 	orcIndex := vh.NewOracle("bulk.items", "one stored document = one created item, one meta of the document's size first, then only size-0 metas with the same ID (nested elements); non-trivial = at least one nested meta")
 	chCodec := vh.NewChannel("bulk.codec", "captured docs payload: packer.BytesUnpacker vs SV.Bulk.decodeDocs, and SV.Bulk.encodeDocs of the decoded documents vs the payload; plus truncated payloads; captured metas payload: MetaData.UnmarshalBinary per record vs SV.Bulk.decMeta (ids, size, token bytes) and re-encoding equals the payload; non-trivial = at least two documents")
@@ -1354,6 +1365,68 @@ func main() {
 		c := reqCase{B: 1024, body: g.body}
 		res := procCase(chProc, c, "witness-2400")
 		checkProperty(g, c, res, orcProp, rep)
+	}
+
+	// many tiny documents: counts around the powers of two a response writer might chunk by
+	if want("bulk.proc") {
+		r := rng.Fork()
+		counts := []int{63, 64, 65, 127, 128, 129, 255, 256, 257, 512, 1024}
+		if o.Thorough() {
+			counts = append(counts, 100, 200, 383, 384, 385, 1000, 1023, 1025, 2048, 4096, 8192)
+			for i := 0; i < 60; i++ {
+				counts = append(counts, 1+r.Intn(3000))
+			}
+		}
+		for _, n := range counts {
+			var g genBody
+			var sb bytes.Buffer
+			for i := 0; i < n; i++ {
+				e := entry{action: `{"index":{}}`, aterm: "\n", term: "\n", doc: fmt.Sprintf(`{"k":"%d"}`, i), tcat: tNone}
+				if i%97 == 5 {
+					e.doc, e.kind = `7`, dNonObject // skipped lines do not count
+				}
+				g.entries = append(g.entries, e)
+				sb.WriteString(e.action + e.aterm + e.doc + e.term)
+			}
+			g.body = sb.Bytes()
+			// make the stored count itself hit n exactly as well
+			for _, exact := range []bool{false, true} {
+				gg := g
+				if exact {
+					gg.entries = nil
+					sb.Reset()
+					for i := 0; i < n; i++ {
+						e := entry{action: `{"index":{}}`, aterm: "\n", term: "\n", doc: fmt.Sprintf(`{"k":"%d"}`, i), tcat: tNone}
+						gg.entries = append(gg.entries, e)
+						sb.WriteString(e.action + e.aterm + e.doc + e.term)
+					}
+					gg.body = append([]byte(nil), sb.Bytes()...)
+				}
+				c := reqCase{B: 256, chunk: 1000 + r.Intn(5000), eager: r.Bool(), body: gg.body, gz: r.Bool()}
+				res := procCase(chProc, c, "many-documents")
+				checkProperty(gg, c, res, orcProp, rep)
+			}
+		}
+	}
+
+	if want("bulk.resp") {
+		r := rng.Fork()
+		totals := []int{}
+		for n := 0; n <= 300; n++ {
+			totals = append(totals, n)
+		}
+		totals = append(totals, 383, 384, 385, 511, 512, 513, 1023, 1024, 1025)
+		if o.Thorough() {
+			totals = append(totals, 2047, 2048, 2049, 4096)
+		}
+		for i := o.Pick(10, 150); i > 0; i-- {
+			totals = append(totals, r.Intn(1500))
+		}
+		for _, n := range totals {
+			took := []time.Duration{0, 7 * time.Millisecond, 999 * time.Microsecond, 1234567 * time.Millisecond}[r.Intn(4)]
+			body := proxyapi.VerifWriteBulkResponse(took, n)
+			chResp.Add(fmt.Sprintf("bulk.resp %d %d", took.Milliseconds(), n), "ok "+vh.Hex(body), n >= 2, fmt.Sprintf("total%%128=%d", min(n%128, 2)))
+		}
 	}
 
 	// truncated gzip bodies: the stream fails in the middle; the request must fail and store nothing
@@ -1535,7 +1608,7 @@ func main() {
 		}
 	}
 
-	for _, ch := range []*vh.Channel{chRL, chFrame, chProc, chIngest, chIndex, chCodec, chDelayed, chMid, chExtract} {
+	for _, ch := range []*vh.Channel{chRL, chFrame, chProc, chResp, chIngest, chIndex, chCodec, chDelayed, chMid, chExtract} {
 		if want(ch.Name) {
 			rep.AddChannel(ch, o.Driver)
 		}
